@@ -341,8 +341,9 @@ class Prog:
 # ----------------------------------------------------------------------------
 # pool runner
 # ----------------------------------------------------------------------------
-class _Timeout(Exception):
-    pass
+class _Timeout(BaseException):
+    """Task wall limit (SIGALRM).  A BaseException, so that the drivers' `except Exception` blocks around real calls
+    cannot mistake the harness's own alarm for a failure of the artefact."""
 
 
 _ALARM_FIRED = [False]
